@@ -246,7 +246,8 @@ def check(case):
             return o.violation("path:segment-count", "%d segments expected after the conversion, %d found (%s)" % (j, len(got), "".join(lib.kind_of(x) for x in got)))
         if any(lib.kind_of(x) == "A" for x in got):
             return o.violation("path:arc-left", "an Arc is still in the path after the conversion: %s" % "".join(lib.kind_of(x) for x in got))
-        Sp = lib.scale_of([lib.xy(x.end) for x in got])
+        # (the harness moved the arc to its place by a translation: rounding of that move is relative to where it was)
+        Sp = max(lib.scale_of([lib.xy(x.end) for x in got]), abs(arc.start.x), abs(arc.start.y), abs(arc.end.x), abs(arc.end.y))
         for a, b in zip(got, got[1:]):
             # (exact equality at every chain's own ends is checked above; elsewhere the path is as connected as it was)
             if lib.kind_of(b) != "M" and not core.pclose(lib.xy(a.end), lib.xy(b.start), 1e-12 * Sp):
